@@ -898,7 +898,7 @@ func computeBidiOrdering(dir di.Direction, finalLine Line) {
 			basePosition = len(finalLine) - 1 - idx
 		}
 		finalLine[idx].VisualIndex = int32(basePosition)
-		if run.Direction == dir {
+		if run.Direction.Progression() == dir.Progression() {
 			if bidiStart != -1 {
 				swapVisualOrder(finalLine[bidiStart:idx])
 				bidiStart = -1
